@@ -3,6 +3,7 @@ import FontVerif.Model.Base
 import FontVerif.Model.ToPath
 import FontVerif.Model.Carve
 import FontVerif.Model.DrawInst
+import FontVerif.Model.ScratchModels
 namespace FontVerif.Drv.C12
 open FontVerif
 
@@ -75,6 +76,29 @@ partial def parseGlyph : List Int → Option (Option Carve.Glyph × List Int)
       | some (cs, r') => some (some (.composite cs i), r')
   | _ => none
 
+/-- `(code, arg)` pairs of the `hint_value_stack::run` hook → model operations -/
+def vsOps : List Int → Option (List ScratchModels.VOp)
+  | [] => some []
+  | 0 :: v :: r => (vsOps r).map (.push v :: ·)
+  | 1 :: _ :: r => (vsOps r).map (.pop :: ·)
+  | 2 :: _ :: r => (vsOps r).map (.peek :: ·)
+  | 3 :: _ :: r => (vsOps r).map (.dup :: ·)
+  | 4 :: _ :: r => (vsOps r).map (.swap :: ·)
+  | 5 :: _ :: r => (vsOps r).map (.clear :: ·)
+  | 6 :: _ :: r => (vsOps r).map (.copyIndex :: ·)
+  | 7 :: _ :: r => (vsOps r).map (.moveIndex :: ·)
+  | 8 :: _ :: r => (vsOps r).map (.roll :: ·)
+  | 9 :: _ :: r => (vsOps r).map (.len :: ·)
+  | 10 :: _ :: r => (vsOps r).map (.values :: ·)
+  | 11 :: n :: r =>
+    if n < 0 ∨ r.length < 2 * n.toNat then none else
+    match pairs (r.take (2 * n.toNat)) with
+    | none => none
+    | some ws => (vsOps (r.drop (2 * n.toNat))).map (.pushMany (ws.map (·.2)) :: ·)
+  | _ => none
+termination_by l => l.length
+decreasing_by all_goals simp_wf; all_goals omega
+
 def handle (cmd : String) (args : List String) : Option String :=
   match parseInts? args with
   | none => none
@@ -105,6 +129,21 @@ def handle (cmd : String) (args : List String) : Option String :=
       | some e, some c => some (toString (Carve.requiredBufferSize c e))
       | _, _ => none
     | "eff", cs => some (joinInts (DrawInst.effectiveCoords cs))
+    | "vstack", cap :: ped :: prefill :: ops =>
+      if cap < 0 then none else
+      match bool? ped, vsOps ops with
+      | some p, some ops =>
+        some ("|".intercalate (((ScratchModels.VS.new (List.replicate cap.toNat prefill) p).run ops).map ScratchModels.renderObs))
+      | _, _ => none
+    | "rpf", n :: px :: py :: pf :: bytes =>
+      if n < 0 ∨ pf < 0 then none else
+      match nats? bytes with
+      | none => none
+      | some gd =>
+        match ScratchModels.readPointsBuf gd n.toNat (List.replicate n.toNat (px, py)) (List.replicate n.toNat pf.toNat) with
+        | none => some "err"
+        | some (pts, fl) =>
+          some ("ok" ++ String.join ((pts.zip fl).map fun t => s!" {t.1.1} {t.1.2} {t.2}"))
     | "counts", ms :: cvt :: st :: tw :: gv :: rest =>
       if ms < 0 ∨ cvt < 0 ∨ st < 0 ∨ tw < 0 then none else
       match bool? gv, parseGlyph rest with
